@@ -401,6 +401,11 @@ def initial_cases(tier, seed):
                 continue
             cases.append({"op": "sdmx_ao2bas", "mol": mol, "fam": fam, "threads": thr, "seed": seed})
             cases.append({"op": "sdmx_shl2alpha", "mol": mol, "fam": fam, "threads": thr, "seed": seed})
+    # point counts relative to the team: fewer points than threads, a count whose per-thread quotient is a multiple of 8 with
+    # a remainder (25 = 3 * 8 + 1), one more than a multiple of the team
+    for mol, fam, npts in itertools.product(["HF"] if quick else ["HF", "LiHgc"], ["SDMXG1", "SDMXFull"] if quick else ["SDMX", "SDMX1", "SDMXG1", "SDMXFull"], [2, 25, 10, 17]):
+        for op in ("sdmx_ao2bas", "sdmx_shl2alpha"):
+            cases.append({"op": op, "mol": mol, "fam": fam, "threads": 2 if npts == 17 else 3, "npts": npts, "seed": seed})
     return cases
 
 
@@ -417,7 +422,8 @@ def _sdmx_gen(case):
     st = F.feature_settings(case["fam"], normalize=False)
     gen = PySCFSDMXInitializer(st.sdmx_settings, lowmem=False).initialize_sdmx_generator(mol, 1)
     rng = np.random.RandomState(12)
-    coords = np.ascontiguousarray(mol.atom_coords()[rng.randint(0, mol.natm, 9)] + rng.randn(9, 3) * 0.9)
+    n = case.get("npts", 9)
+    coords = np.ascontiguousarray(mol.atom_coords()[rng.randint(0, mol.natm, n)] + rng.randn(n, 3) * 0.9)
     return mol, gen, coords
 
 
@@ -430,7 +436,7 @@ def run_sdmx(case):
     nrf = _get_nrf(mol)
     d = gen.deriv
     nb = 1 + 6 * d
-    ck = "mol=%s;fam=%s;threads=%d" % (case["mol"], case["fam"], case["threads"])
+    ck = "mol=%s;fam=%s;threads=%d%s" % (case["mol"], case["fam"], case["threads"], ";npts=%d" % case["npts"] if "npts" in case else "")
     fails = []
     shls = (0, mol.nbas)
     ao_loc = mol.ao_loc_nr()
@@ -479,7 +485,7 @@ def gen_lib():
 
 
 def run_case(case):
-    if case.get("threads", 1) != 1 and not str(case.get("layout", case.get("mol", ""))).startswith("He"):
+    if case.get("threads", 1) != 1 and "npts" not in case and not str(case.get("layout", case.get("mol", ""))).startswith("He"):
         case = dict(case, threads=2)
     set_threads(case.get("threads", 1))
     try:
